@@ -14,11 +14,24 @@ file names, so one relative include string names different files in different
 directories) x the group's data in any 1, 2 or 3 of the files (all injective
 assignments; the other files are pure index files or define another group) x
 {no injection, conflicting datum} (thorough also: duplicate equal datum).
+Part 4 (unit systems, fourth wave): the files of one library state the group's
+data in DIMENSIONAL form, each file in its own unit system - bare numbers under
+the file's own `units:` block (three full blocks, one partial block) or the
+unit written on every number; every assignment of the 5 systems to the 1, 2 or
+3 files that hold the data x every include order x nestings x {no injection,
+conflicting datum, the same datum again in the other file's units, a second
+group split over the first and last file}.  Each shard of this part is walked
+in ONE child interpreter of its own (the loads of a shard form one process
+history; witnesses carry that history).
 """
 import itertools
+import json
 import os
+import subprocess
+import sys
 import tempfile
 
+from .. import VERIF
 from ..runner import Result
 from ..explore import BFS
 
@@ -35,12 +48,18 @@ BOUND = {'quick': '4 reference-temperature placements x 2 classes; 17 pieces x '
                   'include trees: all 8 ordered rooted trees with 2-4 files x '
                   'all 2^(n-1) same-directory/subdirectory placements x all '
                   'injective assignments of 1, 2, 3 data blocks to the files x '
-                  '{none, conflict} (3268 loads)',
+                  '{none, conflict} (3268 loads); unit systems: 5 systems '
+                  '(written-out, 3 full units: blocks, 1 partial block) ^ k '
+                  'files holding the data, k=1: x {top file, included file} x '
+                  '{none, other group}; k=2: x 2 include orders x 3 nestings x '
+                  '4 injections; k=3: x 6 include orders x flat nesting x '
+                  '{none, conflict} (2120 loads, in 7 child interpreters)',
          'thorough': 'same alphabet, BFS to the fixpoint (complete reachable '
                      'state graph); file level additionally with zero-valued '
                      'reference values in every nesting; include trees: all '
                      '22 trees with 2-5 files, same product, injections {none, '
-                     'conflict, duplicate-equal}'}
+                     'conflict, duplicate-equal}; unit systems: as quick, k=3 '
+                     'with all 4 nestings x all 4 injections (12620 loads)'}
 RULE = ('explicit-state search: a state is the canonical form (H_ref, S_ref, '
         'Cp table, range, T_ref to 12 significant digits + attribute names) of '
         'the real object obtained by replaying an event history on a fresh '
@@ -51,7 +70,11 @@ RULE = ('explicit-state search: a state is the canonical form (H_ref, S_ref, '
         '(include-tree cases likewise; the numbers of tree cases in which a '
         'file without data for the group lies between two files that hold '
         'some, and in which one relative include string names two different '
-        'files, are counted separately)')
+        'files, are counted separately); unit-system cases are non-trivial '
+        'when the files that hold the group\'s data use more than one unit '
+        'system; every shard of that part runs in a child interpreter, in '
+        'which its cases are loaded one after the other in the enumeration '
+        'order')
 ASSUMPTIONS = ['all pieces of one run share one reference temperature (as the '
                'quantifier states); files with two different reference '
                'temperatures are judged differentially only (all include orders '
@@ -67,7 +90,18 @@ ASSUMPTIONS = ['all pieces of one run share one reference temperature (as the '
                'every file is included exactly once (no file reachable along '
                'two include paths), all in one scheme and one T_ref; files '
                'without data for the group are pure index files when they '
-               'include something, else they define one other group']
+               'include something, else they define one other group',
+               'unit systems: the data a file gives are its numbers in the '
+               'units of ITS OWN units: block (or the unit written on the '
+               'number); expected non-dimensional values are computed by '
+               'mc/domains/w4_c13.py from the numbers as written, the SI '
+               'definitions of J, kJ, cal (4.184 J), kcal, kK and pgradd\'s '
+               'documented gas constant 8.314472 J/(mol K) stated as a '
+               'literal; compared to 12 significant digits; the same datum '
+               'restated in another unit system is "the same datum": the '
+               'reference numbers are whole calories chosen so that in every '
+               'system the number written converts back to exactly the same '
+               'SI value (asserted by the domain module)']
 MANIFEST = dict(
     technique='explicit-state BFS over the real update()/Load transition '
               'functions against a dictionary-union reference model',
@@ -84,12 +118,22 @@ MANIFEST = dict(
          'every included file stored next to its includer or in its own '
          'subdirectory under directory-local names, is loaded and compared '
          'with the union; a conflicting datum anywhere in the tree must be '
-         'rejected.',
+         'rejected. Files that state the data dimensionally, each in '
+         'its own unit system (units written out, three full and one partial '
+         'units: block with bare numbers; 5 systems on every one of 1-3 '
+         'files, every include order), are loaded in child interpreters and '
+         'compared with the union computed from the numbers as written; a '
+         'conflicting datum in another unit system must be rejected, the same '
+         'datum in another unit system must change nothing.',
     note='One shared reference temperature per run; data values come from a '
          'small alphabet incl. zero; more than 4 (quick) / 5 (thorough) files '
          'or include depth beyond 3 (quick) / 4 (thorough), a file reachable '
          'along two include paths, absolute or ..-relative include strings '
-         'are not covered.',
+         'are not covered. Unit systems: 5 systems over energy units {J, '
+         'kJ, cal, kcal} and temperature {K, kK}, non-zero values only, at '
+         'most 3 files, one T_ref; the libraries of one shard are loaded in '
+         'one process in the one enumeration order (other orders of the same '
+         'loads are not walked).',
     ref='5/C13')
 
 
@@ -659,6 +703,209 @@ def run_trees(R, parents, tier):
                     tree_case(R, parents, placement, holders, inj)
 
 
+# --------------------------------------------------------- unit systems
+#
+# "the union of the data given for it in all the files": a file gives its data
+# in ITS OWN units.  Everything above writes non-dimensional numbers and the
+# unit K on every temperature, so the unit handling of the file reader never
+# had two different answers to give within one library.  Here every file that
+# holds data states them dimensionally in one of 5 unit systems (mc/domains/
+# w4_c13.py): all assignments of systems to files x include orders x nestings
+# x injections.  The expected content is computed from the numbers as written.
+#
+# The loads of one shard run one after the other in ONE child interpreter (a
+# fresh process per shard, so that neither the other parts of this check run
+# in a process this part has been loading unit blocks in, nor the reverse); a
+# witness names the shard and the position of the case in it, and replay()
+# walks the shard from its first case up to that one: the whole history.
+
+UNIT_NESTINGS = {1: ['top-holds-first', 'flat'],
+                 2: ['flat', 'top-holds-first', 'chain'],
+                 3: ['flat', 'top-holds-first', 'chain', 'sub-include']}
+UNIT_INJ = ['none', 'conflict', 'duplicate-equal', 'other-group']
+UNIT_QUICK_3 = (['flat'], ['none', 'conflict'])   # k = 3 in the quick tier
+
+
+def unit_cases(k, first, tier):
+    """The cases of shard (k, first), in the order in which they are loaded.
+    first = unit system of the first data block (None: all of them)."""
+    from ..domains import w4_c13 as U
+    nestings, injs = UNIT_NESTINGS[k], UNIT_INJ
+    if k == 1:
+        injs = ['none', 'other-group']
+    elif k == 3 and tier == 'quick':
+        nestings, injs = UNIT_QUICK_3
+    out = []
+    for systems in U.system_tuples(k):
+        if first is not None and systems[0] != first:
+            continue
+        for order in itertools.permutations(range(k)):
+            for nesting in nestings:
+                for inj in injs:
+                    out.append(dict(systems=list(systems), order=list(order),
+                                    nesting=nesting, injection=inj))
+    return out
+
+
+def unit_layout(nesting, blocks, systems):
+    """Like layout(), with one unit system per data file.  blocks/systems in
+    include order.  -> (files, given): given[group][datum] = list of the SI
+    values the files state for it (one entry per file that states it)."""
+    from ..domains import w4_c13 as U
+    k = len(blocks)
+    names = ['f%d.yaml' % i for i in range(k)]
+    files, given = {}, {}
+
+    def put(name, b, inc, system):
+        text, g = U.file_text(b, inc, system)
+        files[name] = text
+        for grp in g:
+            for d, v in g[grp].items():
+                given.setdefault(grp, {}).setdefault(d, []).append(v)
+    if nesting == 'flat':
+        put('library.yaml', [], names, 'written')
+        for n, b, s in zip(names, blocks, systems):
+            put(n, b, [], s)
+    elif nesting == 'top-holds-first':
+        put('library.yaml', blocks[0], names[1:], systems[0])
+        for n, b, s in zip(names[1:], blocks[1:], systems[1:]):
+            put(n, b, [], s)
+    elif nesting == 'chain':
+        put('library.yaml', [], names[:1], 'written')
+        for i, (n, b, s) in enumerate(zip(names, blocks, systems)):
+            put(n, b, names[i + 1:i + 2], s)
+    elif nesting == 'sub-include':
+        put('library.yaml', [], [names[0], 'mid.yaml'], 'written')
+        put(names[0], blocks[0], [], systems[0])
+        put('mid.yaml', [], names[1:], 'written')
+        for n, b, s in zip(names[1:], blocks[1:], systems[1:]):
+            put(n, b, [], s)
+    return files, given
+
+
+def unit_case(R, case, wit):
+    from pgradd.Error import ReadOnlyDataError
+    from ..domains import w4_c13 as U
+    systems, order = case['systems'], case['order']
+    nesting, inj = case['nesting'], case['injection']
+    k = len(systems)
+    parts = TREE_PARTS[k]
+    # blocks in include order; block i is written in systems[i]
+    blocks = [[(GROUP, list(parts[i]), U.SI)] for i in order]
+    sysord = [systems[i] for i in order]
+    expect = 'union'
+    if inj in ('conflict', 'duplicate-equal'):
+        # the first datum of the file included first is given again by the
+        # file included last, in THAT file's units - with another or with the
+        # same value
+        d0 = blocks[0][0][1][0]
+        v2 = dict(U.SI)
+        if inj == 'conflict':
+            v2[d0] = U.SI_OTHER[d0]
+            expect = 'conflict'
+        blocks[-1] = [(GROUP, blocks[-1][0][1] + [d0], v2)]
+    elif inj == 'other-group':
+        # a second group, split over the first and the last file
+        if k == 1:
+            blocks[0] = blocks[0] + [(OTHER_GROUP, ['H', 'S', 'Cp400'], U.SI_OTHER)]
+        else:
+            blocks[0] = blocks[0] + [(OTHER_GROUP, ['H', 'Cp300'], U.SI_OTHER)]
+            blocks[-1] = blocks[-1] + [(OTHER_GROUP, ['S', 'Cp400'], U.SI_OTHER)]
+    files, given = unit_layout(nesting, blocks, sysord)
+    mixed = len(set(systems)) > 1
+    R.evals += 1
+    if mixed:
+        R.nontrivial += 1
+    try:
+        lib = load_files(files)
+        got = 'loaded'
+    except ReadOnlyDataError:
+        got = 'ReadOnlyDataError'
+    except Exception as e:    # noqa
+        got = 'EXC:' + type(e).__name__
+    R.outcomes['units:%s:%s' % (inj, got)] += 1
+    R.extra['unit-system cases with a units: block in some file'] += any(
+        t.startswith('units:') for t in files.values())
+
+    def want_of(grp):
+        g = {d: vs[0] for d, vs in given.get(grp, {}).items()}
+        H, S, Cp = U.nondimensional(g)
+        return (r12(H), r12(S), tuple((r12(T), r12(v)) for T, v in Cp),
+                U.RANGE, U.T_REF)
+    key = None
+    if expect == 'conflict':
+        if got != 'ReadOnlyDataError':
+            key = 'units-conflict-not-rejected'
+            vs = given[GROUP][blocks[0][0][1][0]]
+            msg = ('two different values for %s were given (%r and %r in SI '
+                   'units) but Load %s' % (blocks[0][0][1][0], vs[0], vs[-1], got))
+    elif got != 'loaded':
+        key = 'units-spurious-' + got
+        msg = 'conflict-free files were not loaded: ' + got
+    else:
+        assert all(len(set(vs)) == 1 for g in given.values() for vs in g.values())
+        want, have = want_of(GROUP), dump_group(lib)
+        if have != want:
+            key = 'units-wrong-union'
+            msg = ('library holds %r, the files give (numbers as written, in '
+                   'each file\'s own units) %r' % (have, want))
+        elif inj == 'other-group' and dump_group(lib, OTHER_GROUP) != want_of(OTHER_GROUP):
+            key = 'units-other-group-wrong'
+            msg = ('the second group holds %r, the files give %r'
+                   % (dump_group(lib, OTHER_GROUP), want_of(OTHER_GROUP)))
+        else:
+            probs = getters_agree(lib[GROUP]['thermochem'], want[:4], U.T_REF)
+            if probs:
+                key, msg = 'units-getters-disagree', probs[0]
+    if key:
+        R.violation('%s:%s:%s' % (key, 'mixed-systems' if mixed else 'one-system',
+                                  'multi' if k > 1 else 'single'),
+                    '%s (case number %d of its shard, loaded after the %d '
+                    'before it in one process): %s'
+                    % (case, wit['index'], wit['index'], msg), wit)
+    R.sample(dict(case, files=files), limit=1)
+
+
+def run_units(R, k, first, tier, upto=None):
+    """Walk shard (k, first) in THIS process.  upto: stop after that case and
+    report only what that case did (replay)."""
+    cases = unit_cases(k, first, tier)
+    for i, case in enumerate(cases):
+        if upto is not None and i > upto:
+            break
+        wit = dict(kind='units', k=k, first=first, tier=tier, index=i, case=case)
+        unit_case(Result() if (upto is not None and i < upto) else R, case, wit)
+
+
+def _units_child(k, first, tier, outpath):
+    R = Result()
+    run_units(R, int(k), None if first == '-' else first, tier)
+    with open(outpath, 'w') as f:
+        json.dump(R.pack(), f, default=str)
+
+
+def run_units_isolated(R, k, first, tier):
+    with tempfile.TemporaryDirectory(prefix='pgv_c13u_') as d:
+        outp = os.path.join(d, 'out.json')
+        p = subprocess.run(
+            [sys.executable, '-c', 'import sys; from mc.props import c13; '
+             'c13._units_child(*sys.argv[1:5])',
+             str(k), first or '-', tier, outp], cwd=VERIF, env=dict(os.environ),
+            stdin=subprocess.DEVNULL, stdout=subprocess.PIPE,
+            stderr=subprocess.STDOUT, timeout=7200)
+        if p.returncode != 0 or not os.path.exists(outp):
+            raise RuntimeError('unit-system child %s/%s failed rc=%s: %s' % (
+                k, first, p.returncode, p.stdout.decode(errors='replace')[-800:]))
+        pack = json.load(open(outp))
+    R.evals += pack['evals']
+    R.nontrivial += pack['nontrivial']
+    R.outcomes.update(pack['outcomes'])
+    R.extra.update(pack['extra'])
+    R.violations.extend(pack['violations'])
+    R.samples.extend(pack['samples'])
+    R.notes.extend(pack['notes'][:3])
+
+
 def run_update(R):
     """GroupLibrary.Update with and without overwrite; copy on first sight."""
     from pgradd.Error import ReadOnlyDataError
@@ -801,6 +1048,11 @@ def shards(tier, seed):
     for n in range(2, TREE_N[tier] + 1):
         for parents in W.trees(n):
             out.append(('trees', parents))
+    from ..domains import w4_c13 as U
+    out.append(('units', 1, None))
+    out.append(('units', 2, None))
+    for first in U.SYSTEM_NAMES:
+        out.append(('units', 3, first))
     return out
 
 
@@ -814,6 +1066,8 @@ def run_shard(shard, tier):
         run_two_tref(R)
     elif shard[0] == 'trees':
         run_trees(R, shard[1], tier)
+    elif shard[0] == 'units':
+        run_units_isolated(R, shard[1], shard[2], tier)
     else:
         run_update(R)
     return R
@@ -836,6 +1090,10 @@ def replay(w):
         run_two_tref(R, only=w)
     elif w['kind'] == 'tree':
         tree_case(R, w['parents'], w['placement'], w['holders'], w['injection'])
+    elif w['kind'] == 'units':
+        # the whole history: every case of the shard before this one is loaded
+        # first, in this (fresh) process
+        run_units(R, w['k'], w['first'], w['tier'], upto=w['index'])
     else:
         run_update(R)
     return dict(violates=bool(R.violations),
